@@ -7,6 +7,7 @@ import (
 	"encoding/hex"
 	"fmt"
 	"math/big"
+	"runtime"
 	"sort"
 	"strings"
 	"sync"
@@ -77,6 +78,8 @@ type c20Case struct {
 	Index   uint64 `json:"index,omitempty"`
 }
 
+var firstUseDone bool
+
 func runC20(r *mon.Run, replay string) {
 	r.Rule("random 128-bit entropies (PCG from VERIF_SEED) plus structural enumerations: all 2048 last words for fixed 11-word prefixes, every position x all 2048 words around base phrases, single-bit and complement patterns, whitespace/malformed variants, key indices; a case is non-trivial/distinct by its (kind, entropy-or-phrase) signature, and the oracle is an independent big-integer BIP-39 reference anchored on the four published 128-bit vectors")
 	r.Assume("crypto/sha256, x/crypto/blake2b and crypto/ed25519 are correct")
@@ -113,6 +116,48 @@ func runC20(r *mon.Run, replay string) {
 		return
 	}
 	seedOf := func(ent [16]byte) [32]byte { return blake2b.Sum256(ent[:]) }
+
+	// the very first use of the phrase functions in this process comes from
+	// several goroutines at once (anything built lazily is built under
+	// contention); every call has to decode its vector
+	if !firstUseDone {
+		firstUseDone = true
+		var wg sync.WaitGroup
+		start := make(chan struct{})
+		type res struct {
+			i    int
+			seed [32]byte
+			err  error
+			pan  any
+		}
+		out := make(chan res, 16)
+		for g := 0; g < 16; g++ {
+			wg.Add(1)
+			go func(g int) {
+				defer wg.Done()
+				<-start
+				if g%2 == 1 {
+					runtime.Gosched()
+				}
+				var rs res
+				rs.i = g % len(vectors)
+				rs.seed, rs.err, rs.pan = decode(vectors[rs.i].phrase)
+				out <- rs
+			}(g)
+		}
+		close(start)
+		wg.Wait()
+		close(out)
+		for rs := range out {
+			r.Eval()
+			var ent [16]byte
+			hex.Decode(ent[:], []byte(vectors[rs.i].ent))
+			if rs.pan != nil || rs.err != nil || rs.seed != seedOf(ent) {
+				r.Violation("first-use-concurrent", fmt.Sprintf("one of 16 concurrent first calls of SeedFromPhrase in a fresh process did not decode a published test vector: panic %v, error %v", rs.pan, rs.err), c20Case{Kind: "first-use", Phrase: vectors[rs.i].phrase}, nil)
+			}
+			r.Count("concurrent_first_use_decodes", 1)
+		}
+	}
 
 	checkEntropy := func(kind string, ent [16]byte) {
 		r.Eval()
